@@ -45,6 +45,15 @@ Theorem Gen_name_suffix_table : gen_name_suffix_fs = name_fs.
 Proof. exact gen_suffix_table. Qed.
 Print Assumptions Gen_name_suffix_table.
 
+(* No row of the table is dead: each selects objects of its kind carrying the row's group / version as
+   a PARSED apiVersion.  (Was refuted -- C03_rule_rows_reachable_refuted, finding
+   C03/rule-row-never-selects:IngressClass -- until the repair 9f584a1 in /repo.) *)
+Theorem C03_rule_rows_reachable :
+  forall b, In b gen_nameref_raw ->
+            gvk_is_selected (gvk_of (row_api_version b) (nb_kind b) false) (nb_gvk b) = true.
+Proof. exact all_rows_reachable. Qed.
+Print Assumptions C03_rule_rows_reachable.
+
 (* ================= every renaming transformer records the previous id first ================= *)
 
 (* Whatever sequence of renaming transformers (namePrefix, nameSuffix, namespace, content hash, in any
@@ -137,8 +146,7 @@ Print Assumptions C03_unique_in_strict_context.
    CURRENT name afterwards.  Missing for the full statement: (i) the composition over all rows that reach
    the same field (C03_no_retarget_whole_refuted: a later row can rewrite the field again),
    (ii) the passage from "unambiguous original names" to "exactly one candidate"
-   (C03_refs_follow_build_refuted: intermediate names are recorded like original ones),
-   (iii) rows that never select (C03_rule_rows_reachable_refuted). *)
+   (C03_refs_follow_build_refuted: intermediate names are recorded like original ones). *)
 Theorem C03_refs_follow_partial :
   forall cs nonstr rules b fs,
     effective_rules gen_gvk_order_first gen_gvk_order_last gen_nameref_raw = Ok rules ->
@@ -258,20 +266,6 @@ Proof. exact gen_whole_closed. Qed.
 Print Assumptions C03_refs_follow_closed.
 
 (* ================= what the faithful model refutes (each confirmed on the implementation) ================= *)
-
-(* Finding C03/rule-row-never-selects:IngressClass.  "Every row of the table selects the objects of its
-   kind" is false: the IngressClass row cannot select any object, whatever its apiVersion. *)
-Theorem C03_rule_rows_reachable_refuted :
-  exists b, In b gen_nameref_raw /\ nb_kind b = "IngressClass" /\ nb_referrers b <> [] /\
-            forall av k scoped, gvk_is_selected (gvk_of av k scoped) (nb_gvk b) = false.
-Proof. exact ingressclass_row_unreachable. Qed.
-Print Assumptions C03_rule_rows_reachable_refuted.
-
-Theorem C03_rule_rows_reachable_partial :
-  forall b, In b gen_nameref_raw -> nb_kind b <> "IngressClass" ->
-            exists g, gvk_is_selected g (nb_gvk b) = true.
-Proof. exact other_rows_reachable. Qed.
-Print Assumptions C03_rule_rows_reachable_partial.
 
 (* Finding C03/rewrite-cascade.  "After the whole transformer, a changed field holds the current name of
    a resource that once had the field's old text as its name" is false: in w2_state (Deployment app ->
